@@ -1,6 +1,7 @@
 package main
 
 import (
+	"sort"
 	"fmt"
 	"go/token"
 	"os"
@@ -221,6 +222,9 @@ func ruleC01Template(c *Ctx, r *Rep) {
 				continue
 			}
 			msg := tplCheck(v.Items, root, v.Owned)
+			if msg == "" {
+				msg = tplSiblingRegions(v.HoleLog)
+			}
 			if debug == root.fn {
 				fmt.Fprintf(os.Stderr, "%s | %s | %s\n", tplRender(v.Items), msg, strings.Join(v.Choices, " "))
 			}
@@ -279,6 +283,9 @@ func tplCheck(items []tplItem, root tplRoot, owned map[string]bool) string {
 		}
 	}
 	if msg := tplDefAssign(items, seq, owned); msg != "" {
+		return msg
+	}
+	if msg := tplAltState(items, seq); msg != "" {
 		return msg
 	}
 	// 2. every function body emitted inside the template: entered at its opscope with 1+arity, must return with depth 1
@@ -403,6 +410,287 @@ func tplDefAssign(items []tplItem, seq []bcIns, owned map[string]bool) string {
 					return fmt.Sprintf("[%d] the sub-compilation %s can resolve %s (slot %s), which is not stored on every path reaching it: the slot would hold a stale value of an earlier activation", pc, ins.Hole, w.name, w.id)
 				}
 			}
+		}
+	}
+	return ""
+}
+
+
+// tplSiblings: the sub-queries of one construct that jq scopes separately. A function, a label or a variable defined
+// at the head of one of them must not be resolvable in a later one, so each is compiled inside a scope-depth region that
+// is closed before the next sibling is compiled (AST field names; the parameter name does not matter).
+var tplSiblings = map[string][][]string{
+	"compileIf":      {{"Cond", "Then", "Else"}},
+	"compileReduce":  {{"Start", "Update"}},
+	"compileForeach": {{"Start", "Update", "Extract"}},
+	"compileTry":     {{"Body", "Catch"}},
+}
+
+func tplSiblingRegions(log []tplHoleRec) string {
+	field := func(arg string) string {
+		if i := strings.LastIndex(arg, "."); i >= 0 {
+			return arg[i+1:]
+		}
+		return arg
+	}
+	for i, a := range log {
+		groups := tplSiblings[a.fn]
+		if groups == nil {
+			continue
+		}
+		for _, b := range log[i+1:] {
+			if b.fn != a.fn || b.frame != a.frame {
+				continue
+			}
+			fa, fb := field(a.arg), field(b.arg)
+			related := false
+			for _, g := range groups {
+				ia, ib := -1, -1
+				for k, f := range g {
+					if f == fa {
+						ia = k
+					}
+					if f == fb {
+						ib = k
+					}
+				}
+				if ia >= 0 && ib >= 0 && ia < ib {
+					related = true
+				}
+			}
+			if !related {
+				continue
+			}
+			if len(a.regions) == 0 {
+				return fmt.Sprintf("%s compiles %s outside any scope-depth region: names defined at its head stay resolvable in %s", a.fn, a.arg, b.arg)
+			}
+			inner := a.regions[len(a.regions)-1]
+			for _, rg := range b.regions {
+				if rg == inner {
+					return fmt.Sprintf("%s compiles %s and %s inside the same scope-depth region: a function, label or variable defined at the head of %s is resolvable in %s (jq scopes them separately)", a.fn, a.arg, b.arg, a.arg, b.arg)
+				}
+			}
+		}
+	}
+	return ""
+}
+
+
+// tplAltState decides, on the template of a destructuring bind with alternatives (`?//`), which pattern may have been the
+// last writer of each variable when the body starts. It is a forward may-analysis of "last writer" sets
+// (nil | alternative i) per variable slot with strong updates at stores, over the inline flow plus two kinds of
+// backtracking edges: from every instruction of an alternative to that alternative's opforkalt target (an error anywhere
+// inside it abandons it), and from every later instruction back to just after each sub-query hole (a generator is
+// resumed with the slots as they were left). Checked at the end of alternative a's success path: every variable was last
+// written by alternative a or by a nil store. Anything else is a value bound by an abandoned sibling (or by the
+// previous output of the source generator) showing through.
+func tplAltState(items []tplItem, seq []bcIns) string {
+	n := len(seq)
+	hasAlt := false
+	for _, in := range seq {
+		if in.Op == "opforkalt" {
+			hasAlt = true
+		}
+	}
+	if !hasAlt {
+		return ""
+	}
+	altOf := func(pc int) string {
+		l := strings.Trim(items[pc].loop, "[]")
+		if l == "" {
+			return ""
+		}
+		return strings.Fields(l)[0]
+	}
+	targeted := make([]bool, n+1)
+	for _, in := range seq {
+		if in.Target >= 0 && in.Target <= n {
+			targeted[in.Target] = true
+		}
+	}
+	type state map[string]map[string]bool
+	clone := func(s state) state {
+		c := state{}
+		for v, ws := range s {
+			m := map[string]bool{}
+			for w := range ws {
+				m[w] = true
+			}
+			c[v] = m
+		}
+		return c
+	}
+	in := make([]state, n+1)
+	out := make([]state, n+1)
+	join := func(pc int, s state) bool {
+		if pc < 0 || pc > n {
+			return false
+		}
+		if in[pc] == nil {
+			in[pc] = clone(s)
+			return true
+		}
+		changed := false
+		for v, ws := range s {
+			if in[pc][v] == nil {
+				in[pc][v] = map[string]bool{}
+			}
+			for w := range ws {
+				if !in[pc][v][w] {
+					in[pc][v][w] = true
+					changed = true
+				}
+			}
+		}
+		return changed
+	}
+	// "unwritten" is the initial writer of every slot: an earlier activation
+	vars := map[string]bool{}
+	for _, ins := range seq {
+		// only the variables a query can name (pattern variables); the lowering's own temporaries are not readable
+		if ins.Op == "opstore" && strings.Contains(ins.VarName, "($") {
+			vars[ins.VarName] = true
+		}
+	}
+	init := state{}
+	for v := range vars {
+		init[v] = map[string]bool{"stale": true}
+	}
+	work := []int{0}
+	join(0, init)
+	succs := func(pc int) []int {
+		ins := seq[pc]
+		var ss []int
+		switch ins.Op {
+		case "opbacktrack", "opret":
+		case "opjump":
+			ss = append(ss, ins.Target)
+		case "opforkalt":
+			// its target is reached only by an error while the alternative is pending: modelled by the explicit edges below
+			ss = append(ss, pc+1)
+		case "opfork", "opforktrybegin", "opjumpifnot":
+			ss = append(ss, ins.Target, pc+1)
+		case "opcall":
+			if !ins.NoReturn {
+				ss = append(ss, pc+1)
+			}
+		default:
+			ss = append(ss, pc+1)
+		}
+		return ss
+	}
+	for steps := 0; steps < 400000; steps++ {
+		if len(work) == 0 {
+			// backtracking edges, then iterate again if anything changed
+			changed := false
+			forkTarget := map[string]int{}
+			for f, ins := range seq {
+				if ins.Op == "opforkalt" && altOf(f) != "" {
+					forkTarget[altOf(f)] = ins.Target
+				}
+			}
+			canFail := map[string]bool{"hole": true, "opindex": true, "opindexarray": true, "opcall": true, "opcallpc": true, "opcallrec": true, "opiter": true, "opobject": true, "oppathend": true}
+			for pc, ins := range seq {
+				if in[pc] == nil {
+					continue
+				}
+				a := altOf(pc)
+				t, has := forkTarget[a]
+				if a != "" && has && t <= n {
+					// an error inside alternative a, or in the body while a is the matching alternative, abandons a
+					if canFail[ins.Op] {
+						for _, st := range []state{in[pc], out[pc]} {
+							if st != nil && join(t, st) {
+								changed = true
+								work = append(work, t)
+							}
+						}
+					}
+					if ins.Op == "opjump" && out[pc] != nil && join(t, out[pc]) {
+						changed = true
+						work = append(work, t)
+					}
+				}
+				// the source generator (a sub-query outside the alternatives) is resumed with the slots as any later point left them
+				if ins.Op == "hole" && a == "" && !strings.HasSuffix(ins.Hole, "…") {
+					for q := pc + 1; q < n; q++ {
+						if out[q] != nil && join(pc+1, out[q]) {
+							changed = true
+							work = append(work, pc+1)
+						}
+					}
+				}
+			}
+			if !changed {
+				break
+			}
+			continue
+		}
+		pc := work[len(work)-1]
+		work = work[:len(work)-1]
+		if pc >= n || in[pc] == nil {
+			continue
+		}
+		o := in[pc]
+		if ins := seq[pc]; ins.Op == "opstore" && vars[ins.VarName] {
+			o = clone(in[pc])
+			w := "alt:" + altOf(pc)
+			if pc > 0 && seq[pc-1].Op == "oppush" && seq[pc-1].PushNil && !targeted[pc] {
+				w = "nil"
+			}
+			o[ins.VarName] = map[string]bool{w: true}
+		}
+		out[pc] = o
+		for _, s := range succs(pc) {
+			if join(s, o) {
+				work = append(work, s)
+			}
+		}
+	}
+	// the join after the alternatives: the common target of the alternatives' closing jumps
+	J := -1
+	for pc, ins := range seq {
+		if ins.Op == "opjump" && altOf(pc) != "" && in[pc] != nil {
+			J = ins.Target
+		}
+	}
+	if J < 0 {
+		return ""
+	}
+	check := func(pc int) string {
+		a := altOf(pc)
+		if a == "" || out[pc] == nil {
+			return ""
+		}
+		var names []string
+		for v := range out[pc] {
+			names = append(names, v)
+		}
+		sort.Strings(names)
+		for _, v := range names {
+			for w := range out[pc][v] {
+				if w == "nil" || w == "alt:"+a {
+					continue
+				}
+				what := "the value bound by alternative " + strings.TrimPrefix(w, "alt:") + ", which was abandoned (or matched an earlier output of the source)"
+				if w == "stale" {
+					what = "whatever an earlier activation left in the slot"
+				}
+				return fmt.Sprintf("[%d] when alternative %s of ?// matches, variable %s can still hold %s: it must be null or bound by the matching alternative", pc, a, v, what)
+			}
+		}
+		return ""
+	}
+	for pc, ins := range seq {
+		if ins.Op == "opjump" && ins.Target == J && in[pc] != nil {
+			if msg := check(pc); msg != "" {
+				return msg
+			}
+		}
+	}
+	if J-1 >= 0 && J-1 < n && in[J-1] != nil && seq[J-1].Op != "opjump" && seq[J-1].Op != "opbacktrack" {
+		if msg := check(J - 1); msg != "" {
+			return msg
 		}
 	}
 	return ""
